@@ -3,6 +3,7 @@ package main
 import (
 	"fmt"
 	"go/ast"
+	"sort"
 	"strings"
 )
 
@@ -113,7 +114,45 @@ func init() {
 			}
 			fmt.Fprintf(&sb, "%q", f)
 		}
-		sb.WriteString("]\n\nend Litestream.Gen.SyncSteps\n")
+		sb.WriteString("]\n\n")
+		// byte-budget flow: every call of the sync chain in the package, with the enclosing
+		// function and the text of the budget argument (the last one).
+		chain := map[string]bool{"syncOnce": true, "syncLocked": true, "verifyAndSyncWithExecutor": true, "sync": true}
+		var flow []string
+		var fnames []string
+		for n := range p.files {
+			fnames = append(fnames, n)
+		}
+		sort.Strings(fnames)
+		for _, n := range fnames {
+			for _, d := range p.files[n].Decls {
+				fdecl, ok := d.(*ast.FuncDecl)
+				if !ok || fdecl.Body == nil {
+					continue
+				}
+				ast.Inspect(fdecl.Body, func(m ast.Node) bool {
+					ce, ok := m.(*ast.CallExpr)
+					if !ok {
+						return true
+					}
+					sel, ok := ce.Fun.(*ast.SelectorExpr)
+					if !ok || !chain[sel.Sel.Name] || len(ce.Args) == 0 {
+						return true
+					}
+					if id, ok := sel.X.(*ast.Ident); !ok || id.Name != "db" {
+						return true
+					}
+					if sel.Sel.Name == "sync" && len(ce.Args) != 5 {
+						return true
+					}
+					flow = append(flow, fmt.Sprintf("(%q, %q, %q)", fdecl.Name.Name, sel.Sel.Name, norm(c.src(ce.Args[len(ce.Args)-1]))))
+					return true
+				})
+			}
+		}
+		sb.WriteString("/-- (enclosing function, callee, byte-budget argument) of every call into the sync chain, in file and source order -/\ndef budgetFlow : List (String × String × String) := [\n  ")
+		sb.WriteString(strings.Join(flow, ",\n  "))
+		sb.WriteString("\n]\n\nend Litestream.Gen.SyncSteps\n")
 		return sb.String(), nil
 	}
 }
